@@ -8,7 +8,7 @@ CLAIMED = {
  'C06': dict(
    text='25 Coq theorems (reciprocity, transitivity, physical preservation for dur/rate, round trip and composition of .to(), '
         'compounding/range/monotonicity/rejection for time_prob and rate_prob over R) about definitions REGENERATED from starsim/time.py on '
-        'every run; the hand-written TimePar model is run inside Coq against ss.dur/ss.rate/ss.time_ratio on the same inputs.',
+        'every run; the hand-written TimePar model is run inside Coq against ss.dur/ss.rate/ss.time_ratio on the same inputs. Crude rates (Births/Deaths/Pregnancy cbr, cmr): count over the counting module`s own step length recovers the rate; the code divides by the sim`s step (crude_rate_reported, replayed in Coq on real runs), off by mdt/sdt: refuted, listed finding.',
    note='Trusted: Coq kernel, translator, harness; R theorems use the standard real-number axioms (sig_forall_dec, sig_not_dec, classic, '
         'functional_extensionality_dep). Not verified: binary64 rounding (tolerance 1e-12), array branches of the probability classes '
         '(shape-pinned + pointwise comparison with the scalar branch).',
